@@ -61,6 +61,19 @@ def check_table_roles(cx: Cx, ob: Ob, tables_wanted: list[str]) -> None:
                 vrec = e.value[1] if op(e.value) == "attr" else None
                 if e.record is not None and vrec is not None and vrec != e.record:
                     ob.violate(e.fn, e.site, f"add_record writes {table}[<name of `{show(e.record)[:30]}`>] = `{show(e.value)[:40]}`, a value of another record: the table then holds something no record of the converter carries (a converter built from the same records answers differently)", detail=f"{table}:cross-record")
+    # ... and in add_prefix: an entry keyed by something that is not a name of a record (a computed spelling) is a name
+    # the tables know and no record lists - queries answer from it, the records (and every converter built from
+    # them, and expand_all / get_record that read them) do not
+    for qn in ("add_prefix", "add_record"):
+        apf = cx.model.functions.get(f"{CONV}.{qn}")
+        if apf is None:
+            continue
+        for table, ents in index_method_entries(cx, apf, ob.id).items():
+            if table not in tables_wanted:
+                continue
+            for e in ents:
+                if e.key_unknown and not e.key_fields:
+                    ob.violate(e.fn, e.site, f"{qn} enters `{show(e.key)[:50]}` into {table} itself: a key that is not a name of the record being added, so the table recognises a string that no record lists (a converter rebuilt from the same records, expand_all and get_record do not know it)", witness="add_prefix then compress of a URI under the extra key succeeds; Converter(c.records) says None", detail=f"{table}:foreign-key")
     for table in tables_wanted:
         key_fields, value_field = TABLES[table]
         for origin, entries in (("constructor", ctor.get(table)), ("_index", idx.get(table))):
@@ -70,6 +83,18 @@ def check_table_roles(cx: Cx, ob: Ob, tables_wanted: list[str]) -> None:
             for e in entries:
                 ob.site(e.site, f"{origin}: {table}[{'|'.join(sorted(e.key_fields)) or '?'}] = {e.value_field or show(e.value)[:40]}")
                 if e.key_unknown and not e.key_fields:
+                    other = idx.get(table) if origin == "constructor" else ctor.get(table)
+                    if other and not any(o.key_unknown and not o.key_fields for o in other) and getattr(e, "key", None) is not None and not (op(e.key) == "call" and op(e.key[1]) == "attr" and e.key[1][2] in ("casefold", "lower", "upper", "strip", "title", "capitalize", "swapcase")):
+                        # sibling agreement: one of the two ways of building the table enters a computed spelling
+                        # the other never does - built at once and built step by step, the converter differs
+                        ob.violate(
+                            e.fn,
+                            e.site,
+                            f"{origin} enters `{show(e.key)[:50]}` (not a name of any record) into {table}, which {'_index' if origin == 'constructor' else 'the constructor'} never does: a converter that got a record through add_record / add_prefix and one constructed from the same records recognise different strings",
+                            witness="Converter([r]) vs Converter([]) + add_record(r): compress of the extra spelling succeeds in one and not in the other",
+                            detail=f"{table}:{'ctor' if origin == 'constructor' else 'index'}-only-entry",
+                        )
+                        continue
                     k_ = e.key
                     if op(k_) == "call" and op(k_[1]) == "attr" and k_[1][2] in ("casefold", "lower", "upper", "strip", "title", "capitalize", "swapcase") and not k_[2]:
                         from ..rules import Prov as _Pv
@@ -381,7 +406,7 @@ def _offset(lo, lenkey):
     return None
 
 
-def curie_join_check(cx: Cx, ob: Ob, fn_name: str, base_pred, base_desc: str, nonempty_identifier_only: bool = False) -> None:
+def curie_join_check(cx: Cx, ob: Ob, fn_name: str, base_pred, base_desc: str, nonempty_identifier_only: bool = False, alnum_identifiers: bool = False) -> None:
     """Success return of ``fn_name`` is prefix + self.delimiter + identifier of ``base``."""
     fn = cx.fn(f"{CONV}.{fn_name}", ob.id)
     s = cx.summary(fn, ob.id)
@@ -413,6 +438,12 @@ def curie_join_check(cx: Cx, ob: Ob, fn_name: str, base_pred, base_desc: str, no
                 continue
             if verdict == "last-occurrence":
                 ob.violate(fn.qualname, where(fn, line), f"{fn_name} cuts its argument at the LAST delimiter while parse_curie / expand cut at the first: CURIEs whose identifier contains the delimiter are not standardised", witness="standardize_curie('go:GO:0032571') is None although expand resolves prefix 'go'", detail="last-occurrence")
+                continue
+            if alnum_identifiers and ca is not None and ca[1] == 0 and any(op(x) == "attr" and x[1] == ca[0] and x[2] == "identifier" for x in subterms(b)):
+                # prefix intact, identifier put through a transformation: success and failure are as before, and the
+                # caller's property speaks of alphanumeric identifiers only - whether THOSE are changed is a
+                # question about the transformation
+                ob.undecide(f"{fn_name} joins the prefix with `{show(b)[:60]}`, a transformed identifier: whether alphanumeric identifiers come through unchanged is not decided")
                 continue
             ob.violate(fn.qualname, where(fn, line), f"{fn_name} does not join (prefix, identifier) of one parsed reference: `{show(a)[:40]}` / `{show(b)[:40]}`", detail="components")
             continue
@@ -552,6 +583,11 @@ def success_conditions(ob: Ob, fn, ctx, base, line, nonempty_identifier_only: bo
         if nonempty_identifier_only and g.b and t == ("attr", base, "identifier"):
             # the caller's property speaks of non-empty identifiers only
             ob.site(f"{where(fn, line)} {fn.qualname}", "requires a non-empty identifier (outside this property's domain)")
+            continue
+        if nonempty_identifier_only and any(x == ("attr", base, "identifier") for x in subterms(t)) and not any(op(x) == "attr" and x[1] == base and x[2] != "identifier" for x in subterms(t)):
+            # a test of the identifier alone: the caller's property speaks of alphanumeric identifiers only, and
+            # whether those pass the test is a question about the test (a regular expression, a character class)
+            ob.undecide(f"{fn.name} succeeds only if `{show(t)[:60]}`: whether alphanumeric identifiers pass is not decided")
             continue
         if op(t) == "cmp" and t[2] == base and is_const(t[3], None):
             continue
